@@ -26,6 +26,15 @@
 using std::size_t;
 using namespace primesieve;
 
+#if defined(PRIMESIEVE_VERIF)
+// Verification hook H1 (see /verif/DESIGN.md): lets the external harness
+// observe the pieces handed to the worker threads and lower the minimum
+// piece length so that piece boundaries can be placed densely.
+// 0 = use config::MIN_THREAD_DISTANCE.
+uint64_t primesieve_verif_min_thread_distance = 0;
+void (*primesieve_verif_piece_hook)(uint64_t i, uint64_t start, uint64_t stop) = nullptr;
+#endif
+
 namespace {
 
 counts_t& operator+=(counts_t& v1, const counts_t& v2)
@@ -71,6 +80,10 @@ int ParallelSieve::idealNumThreads() const
 
   uint64_t threshold = isqrt(stop_) / 5;
   threshold = std::max(threshold, config::MIN_THREAD_DISTANCE);
+#if defined(PRIMESIEVE_VERIF)
+  if (primesieve_verif_min_thread_distance)
+    threshold = std::max(isqrt(stop_) / 5, primesieve_verif_min_thread_distance);
+#endif
   uint64_t threads = getDistance() / threshold;
   threads = inBetween(1, threads, numThreads_);
 
@@ -96,6 +109,10 @@ uint64_t ParallelSieve::getThreadDistance(int threads) const
 
   uint64_t threadDist = ((dist - 1) / iters) + 1;
   threadDist = std::max(threadDist, config::MIN_THREAD_DISTANCE);
+#if defined(PRIMESIEVE_VERIF)
+  if (primesieve_verif_min_thread_distance)
+    threadDist = std::max(((dist - 1) / iters) + 1, primesieve_verif_min_thread_distance);
+#endif
   threadDist += 30 - threadDist % 30;
 
   return threadDist;
@@ -165,6 +182,11 @@ void ParallelSieve::sieve()
 
         if (start > start_)
           start = align(start) + 1;
+
+#if defined(PRIMESIEVE_VERIF)
+        if (primesieve_verif_piece_hook)
+          primesieve_verif_piece_hook(i, start, stop);
+#endif
 
         // Sieve the primes inside [start, stop]
         ps.sieve(start, stop);
